@@ -536,8 +536,11 @@ class SparselyBin(Factory, Container):
             if isinstance(json["bins"], dict):
                 for i in json["bins"]:
                     try:
-                        int(i)
+                        canonical = str(int(i)) == i
                     except ValueError:
+                        canonical = False
+                    if not canonical:
+                        # "07", "+7", " 7" would collide with "7" and silently merge two bins
                         raise JsonFormatException(i, "SparselyBin.bins key must be an integer")
 
                 bins = {int(i): binsFactory.fromJsonFragment(v, binsName) for i, v in json["bins"].items()}
